@@ -175,6 +175,16 @@ def adSeekStep (nbytes : Nat) (c : AdCursor) (op : List String) : String × Opti
     | none => ("bad-op", none)
   | _ => ("bad-op", none)
 
+def adVSeekStep (nbytes : Nat) (c : AdVirt) (op : List String) : String × Option AdVirt :=
+  match op with
+  | ["rw"] => let (w, c') := c.readWord nbytes; (bytesHex w, some c')
+  | ["wp"] => (toString (c.wordPos nbytes), some c)
+  | ["sp", k] =>
+    match num? k with
+    | some k => ("ok", some (c.setWordPos nbytes k))
+    | none => ("bad-op", none)
+  | _ => ("bad-op", none)
+
 def handleAD (toks : List String) (body : String) : String :=
   match toks with
   | mode :: cfgs =>
@@ -194,6 +204,10 @@ def handleAD (toks : List String) (body : String) : String :=
     | "seek" =>
       let ops := ((body.splitOn ";").map fun o => (o.trimAscii.toString.splitOn " ").filter (· ≠ "")).filter (· ≠ [])
       let a := ";".intercalate (runOpsD (adSeekStep nbytes) { data := data } ops [])
+      a ++ " || " ++ a
+    | "vseek" =>
+      let ops := ((body.splitOn ";").map fun o => (o.trimAscii.toString.splitOn " ").filter (· ≠ "")).filter (· ≠ [])
+      let a := ";".intercalate (runOpsD (adVSeekStep nbytes) {} ops [])
       a ++ " || " ++ a
     | _ => "bad-request"
   | _ => "bad-request"
